@@ -5,7 +5,8 @@ ID=$1; PATCH=$2; TIER=${3:-quick}
 cd /repo || exit 3
 if [ -n "$(git status --porcelain --untracked-files=no)" ]; then echo "/repo not clean"; exit 3; fi
 git apply "$PATCH" || { echo "patch does not apply"; exit 3; }
-cd /verif && ./check "$ID" --tier "$TIER"; rc=$?
+# evidence and replays of a run against a changed tree never land in /verif/evidence or /verif/replays
+cd /verif && VERIF_EVIDENCE_DIR=/tmp/trymut-evidence VERIF_REPLAY_DIR=/tmp/trymut-replays ./check "$ID" --tier "$TIER"; rc=$?
 git -C /repo checkout -- . 
 echo "trymut: $ID $(basename $(dirname $PATCH)) -> exit $rc"
 exit $rc
